@@ -20,6 +20,7 @@ from .npx import deep_strip, deep_wrap, _symlists
 HOOKS = {}
 CALLS = []  # (family, method, args) of symbolic kernel applications, for mapping assertions
 TERMS = {}  # (engine, path, family, method) -> [(x term, parameter terms, value term)]
+AUTO_MONOTONE = False  # harness switch: add monotonicity instances for cdf/ppf kernels as terms are created
 
 
 def add_monotonicity(methods=("cdf", "ppf")):
@@ -84,7 +85,15 @@ def kernel_scalar(fam, method, x, params):
     nan = xs.nan
     for p in ps:
         nan = sym._or_nan(nan, p.nan)
-    TERMS.setdefault((id(e), e.stats["paths"], fam, method), []).append((xs.t, tuple(p.t for p in ps), v))
+    key = (id(e), e.stats["paths"], fam, method)
+    if AUTO_MONOTONE and method in ("cdf", "ppf"):
+        # contract instance on creation: non-decreasing in the first argument for syntactically equal parameters
+        pk = tuple(p.t.get_id() for p in ps)
+        for (x2, p2, v2) in TERMS.get(key, []):
+            if tuple(q.get_id() for q in p2) == pk and not x2.eq(xs.t):
+                e.axiom(z3.Implies(xs.t <= x2, v <= v2))
+                e.axiom(z3.Implies(x2 <= xs.t, v2 <= v))
+    TERMS.setdefault(key, []).append((xs.t, tuple(p.t for p in ps), v))
     if method == "cdf":
         e.axiom(z3.And(v >= 0, v <= 1))
         if fam == "norm":
